@@ -8,7 +8,10 @@ LEVEL = "exploration"
 
 
 def check(run):
-    res = dp.decode_pass(run, want={"c07"})
+    # thorough: the windows of the Comm-B shapes only (register combinations), more random fills instead
+    over = dict(k_random=200, win_df=[20], chunk=100000) if run.tier == "thorough" else {}
+    res = dp.decode_pass(run, want={"c07"}, **over)
+    samples = dp.first_events(res, "c07.ndjson", n=3, pred=lambda e: e["ser"] == "ok")
     rejected, n_events, results = dp.validate_parts(run, res, "trace/Trace_Json", "c07.ndjson", max_lines=120000)
     st = res["stats"]
     per = Counter()
@@ -23,12 +26,11 @@ def check(run):
                          "spec": "Trace_Json.tla: serialises, one_line, no_dup, finite, df = ShownDF, "
                                  "icao24 = Hex6(ShownICAO), frame = hex(input), redecode gives the same text",
                          "reproduce": f"{res['exe']} probe {ev['hex']}"})
-    samples = dp.first_events(res, "c07.ndjson", n=3, pred=lambda e: e["ser"] == "ok")
     run.cov.update({
         "evaluations": n_events,
         "distinct_nontrivial": st["distinct_accepted"],
         "rule": "the decode pass of C01 (every shape of the TLC-enumerated shape space x fills x field extremes"
-                + (" x 16-bit windows" if res["tier"]["windows"] else "")
+                + (" x 16-bit windows of the MB field of the Comm-B shapes" if res["tier"]["windows"] else "")
                 + "); every accepted message is serialised as Message and as TimedMessage, lexed by the harness, "
                   "the hex of `frame` decoded again. One evaluation = one accepted frame judged by Trace_Json.tla. "
                   "distinct_nontrivial = distinct accepted byte strings (64-bit hash); the shape space is covered "
